@@ -36,6 +36,13 @@ theorem wrong_en_passant_rank_is_refused {s : List Char} {g : Game} (h : Game.of
     Spec.epRankOk s = true :=
   ofFen_epRankOk h
 
+/-- **a pawn on the first or last rank is refused**: no position of chess has one (and the pawn
+generators assume it: their unchecked square arithmetic steps one rank forward). The check treats
+such texts as malformed. -/
+theorem edge_pawns_are_refused {s : List Char} {g : Game} (h : Game.ofFen s = .ok g) :
+    Spec.noEdgePawns g.abs = true :=
+  ofFen_noEdgePawns h
+
 example : Spec.epRankOk "rnbqkbnr/pppppppp/8/8/4P3/8/PPPP1PPP/RNBQKBNR b KQkq e6 0 1".toList = false := by decide
 example : Spec.epRankOk "rnbqkbnr/pppppppp/8/8/4P3/8/PPPP1PPP/RNBQKBNR b KQkq e3 0 1".toList = true := by decide
 
@@ -94,3 +101,4 @@ end Chess.Props.C17
 #print axioms Chess.Props.C17.accepted_is_well_formed
 #print axioms Chess.Props.C17.unbacked_rights_are_refused
 #print axioms Chess.Props.C17.wrong_en_passant_rank_is_refused
+#print axioms Chess.Props.C17.edge_pawns_are_refused
